@@ -13,6 +13,7 @@ Record tables := {
   t_frepr : list (fl * str);
   t_nstore : list (str * list (res sval));          (* per affinity, in the order TEXT NUMERIC INTEGER REAL BLOB *)
   t_float_of : list (pyval * fl);
+  t_float_of_int : list (Z * option fl);            (* float(int); None = OverflowError *)
   t_uuid : list (N * str);
   t_b64 : list (list N * str);
   t_pickle : list (pyval * list N * pyval);         (* value, pickle.dumps, pickle.loads of that *)
@@ -34,6 +35,7 @@ Definition mk_codecs (t : tables) : codecs := {|
                           | None => Raise E_Unmodelled
                           end;
   float_of_dec := fun v => match assoc pyval_eqb v (t_float_of t) with Some f => f | None => 0 end;
+  float_of_int := fun z => match assoc Z.eqb z (t_float_of_int t) with Some r => r | None => None end;
   b64enc := fun b => match assoc str_eqb b (t_b64 t) with Some s => s | None => [] end;
   b64dec := fun s => match assoc str_eqb s (map (fun p => (snd p, fst p)) (t_b64 t)) with Some b => b | None => [] end;
   pdumps := fun v => match assoc pyval_eqb v (map (fun p => (fst (fst p), snd (fst p))) (t_pickle t)) with
@@ -75,6 +77,7 @@ Record case := {
   c_var : variant;
   c_decl : str;                           (* the type name PRAGMA table_info reports for the column *)
   c_indom : bool;                         (* the oracle's (Python) reading of "v is in the column's documented domain" *)
+  c_kindok : bool;                        (* the classifier's (Python) reading of the date/time trigger classes *)
   c_tab : tables;
   c_obs : obs
 }.
@@ -109,6 +112,7 @@ Definition agree (c : case) : bool :=
   str_eqb (c_decl c) (sqlite_type (c_col c)) &&
   (* the theorems' domain predicate is the oracle's; real Python objects are well-formed *)
   Bool.eqb (in_domain (c_col c) (c_val c)) (c_indom c) && wf (c_val c) &&
+  Bool.eqb (kind_ok (c_col c) (c_val c)) (c_kindok c) &&
   (* did the write return; the exception class if not *)
   res_eqb unit_eqb (o_write o) (ob_w b) &&
   Bool.eqb (o_row o) (ob_row b) &&
